@@ -906,6 +906,8 @@ class SetIndex(BaseSetIndexSortValues):
                 self, parent, dependents, additional_columns=addition_columns
             )
             columns = _convert_to_list(columns)
+            # keep the order of the frame so that needing all columns is a no-op
+            columns = [col for col in self.frame.columns if col in columns]
             if self.frame.columns == columns:
                 return
             return type(parent)(
